@@ -16,8 +16,25 @@ FNS = ("microjs.context.Context.eval", "microjs.context.Context.set", "microjs.c
 
 NAMES = ["x", "y", "Math"]
 OPS = ("var", "function", "assign", "builtin-prop", "object-proto", "math-prop", "throw", "syntax-error", "loop-forever", "recurse-forever",
-       "indirect-eval", "new-function", "set", "get", "type-error", "nested-eval-throw", "regex-then-throw", "callback-throw")
-ERROR_OPS = ("throw", "syntax-error", "loop-forever", "recurse-forever", "type-error", "nested-eval-throw", "regex-then-throw", "callback-throw")
+       "indirect-eval", "new-function", "set", "get", "type-error", "nested-eval-throw", "regex-then-throw", "callback-throw",
+       "loop-in-try", "recurse-in-try", "all-builtins")
+ERROR_OPS = ("throw", "syntax-error", "loop-forever", "recurse-forever", "type-error", "nested-eval-throw", "regex-then-throw", "callback-throw",
+             "loop-in-try", "recurse-in-try")
+
+
+def builtin_objects():
+    """Names of the global built-in objects of a fresh context (regenerated from the engine at run time)."""
+    if "names" not in _BUILTINS:
+        import re
+        import microjs.values as V
+        from microjs import Context
+        g = Context()._globals
+        _BUILTINS["names"] = sorted(k for k, v in g.items() if isinstance(v, (V.JSObject, V.JSFunction)) and re.fullmatch(r"[A-Za-z_$][A-Za-z0-9_$]*", k)
+                                    and k != "Math")
+    return _BUILTINS["names"]
+
+
+_BUILTINS = {}
 
 OBSERVE = ("[typeof x === 'undefined' ? 'U' : (typeof x === 'function' ? ['fn', x()] : x), "
            "typeof y === 'undefined' ? 'U' : (typeof y === 'function' ? ['fn', y()] : y), "
@@ -61,6 +78,7 @@ class Model:
         self.px = None
         self.py = None
         self.pz = None
+        self.qx = None
 
     def observe(self):
         out = []
@@ -71,6 +89,7 @@ class Model:
             else:
                 out.append("M" if n == "Math" else "U")
         out += [self.px, self.py, self.pz if "Math" not in self.globals else "clobbered", self.px, self.py, self.px, self.px]
+        out.append([self.qx for _ in builtin_objects()])
         return out
 
 
@@ -92,7 +111,10 @@ def same(a, b):
 
 
 def observe(ctx):
-    return ctx._to_python(run_compiled(ctx, compile_js(OBSERVE)))
+    with NoTracing():
+        names = builtin_objects()
+        extra = "[" + ", ".join("typeof %s === 'undefined' ? 'U' : %s.qx" % (n, n) for n in names) + "]"
+    return ctx._to_python(run_compiled(ctx, compile_js(OBSERVE))) + [ctx._to_python(run_compiled(ctx, compile_js(extra)))]
 
 
 def apply_op(op, ctx, model, name, v, clock):
@@ -156,6 +178,18 @@ def apply_op(op, ctx, model, name, v, clock):
         src = "[1, 2].forEach(function (e) { %s = V; if (e === 2) { null.y; } });" % name
         model.globals[name] = ("val", v)
         expect = JSError
+    elif op == "loop-in-try":
+        src = "%s = V; try { while (true) { } } catch (e) { %s = 0; } finally { }" % (name, name)
+        model.globals[name] = ("val", v)
+        expect = TimeLimitError
+    elif op == "recurse-in-try":
+        src = "%s = V; try { (function r() { return r() + 1; })(); } catch (e) { %s = 0; }" % (name, name)
+        model.globals[name] = ("val", v)
+        expect = MemoryLimitError
+    elif op == "all-builtins":
+        with NoTracing():
+            src = " ".join("%s.qx = V;" % n for n in builtin_objects())
+        model.qx = v
     elif op == "set":
         ctx.set(name, v)
         model.globals[name] = ("val", v)
@@ -169,7 +203,7 @@ def apply_op(op, ctx, model, name, v, clock):
         raise KeyError(op)
     # V travels as a global of its own so that the source text stays concrete
     ctx.set("V", v)
-    clock.hot = op == "loop-forever"
+    clock.hot = op in ("loop-forever", "loop-in-try")
     raised = None
     try:
         ctx.eval(src)
@@ -208,7 +242,7 @@ def make_history(n, first):
                 op = pick(o, OPS)
                 ci = pick(c, [0, 1])
                 name = pick(a, NAMES)
-                if op in ("builtin-prop", "object-proto", "math-prop"):
+                if op in ("builtin-prop", "object-proto", "math-prop", "all-builtins"):
                     pre(a == 0)
                 err = apply_op(op, ctxs[ci], models[ci], name, v, clock)
                 if err is not None:
